@@ -195,7 +195,7 @@ where F: Fn(u64, &mut Rng, &mut Report) + Sync {
         Some((g, i)) => if g == group { vec![*i] } else { vec![] },
         None => (0..n).collect(),
     };
-    if cfg!(miri) && cfg.only_case.is_none() {
+    if (cfg!(miri) || std::env::var("HV_MIRI_MODE").is_ok()) && cfg.only_case.is_none() {
         // Interpreted run (tools/extra_passes.sh, Miri as undefined-behaviour monitor): a few cases per group, chosen by the
         // seed; groups at large degrees are out of an interpreter's reach; no new case after the time budget.
         let cap: usize = std::env::var("HV_MIRI_CASES").ok().and_then(|s| s.parse().ok()).unwrap_or(2);
@@ -206,7 +206,7 @@ where F: Fn(u64, &mut Rng, &mut Report) + Sync {
         let mut chosen = vec![];
         for _ in 0..cap.min(indices.len()) { chosen.push(indices[pick.usize_below(indices.len())]); }
         indices = chosen;
-        println!("MIRI-GROUP group={} cases={:?}", group, indices);
+        println!("MIRI-GROUP group={} of={} cases={:?} scale={} tier={}", group, n, indices, cfg.scale, cfg.tier.name());
     }
     let next = AtomicUsize::new(0);
     let merged = Mutex::new(Report::new());
